@@ -780,17 +780,17 @@ def Multi.get (m : Multi) (i : Nat) : St := (m.conns.lookup i).getD {}
 
 def Multi.set (m : Multi) (i : Nat) (s : St) : Multi := { conns := (i, s) :: m.conns.filter (fun p => p.1 != i) }
 
+/-- the semantic core of the multi-connection driver: run `line` on connection `i`'s own state -/
+def stepAt (m : Multi) (i : Nat) (line : String) : Multi × String :=
+  ((m.set i (handle (m.get i) line).1), (handle (m.get i) line).2)
+
 def handleMulti (m : Multi) (line : String) : Multi × String :=
   if line.startsWith "@" then
     match ((line.drop 1).toString.splitOn " ") with
     | i :: rest => match i.toNat? with
-      | some i =>
-        let r := handle (m.get i) (" ".intercalate rest)
-        (m.set i r.1, r.2)
+      | some i => stepAt m i (" ".intercalate rest)
       | none => (m, "bad-op")
     | [] => (m, "bad-op")
-  else
-    let r := handle (m.get 0) line
-    (m.set 0 r.1, r.2)
+  else stepAt m 0 line
 
 end Mimic.Drv
